@@ -49,6 +49,7 @@ type plan struct {
 	deadC   []famMod  // lazily built, see deadCode()
 	dimmC   []famMod  // lazily built, see deadImm()
 	segC    []segMod  // lazily built, see segKinds()
+	nameC   []nameMod // lazily built, see names()
 	crash   map[string]bool // "seed/field/val" of single deviations that killed the process
 	rawMax  int
 	famStep int
@@ -124,6 +125,17 @@ func (p *plan) segKinds() []segMod {
 		p.segC = buildSegKinds()
 	}
 	return p.segC
+}
+
+func (p *plan) names() []nameMod {
+	if p.nameC == nil {
+		n := 3
+		if p.tier == "thorough" {
+			n = 4
+		}
+		p.nameC = buildNames(n)
+	}
+	return p.nameC
 }
 
 func (p *plan) deadCode() []famMod {
@@ -225,6 +237,13 @@ func (p *plan) allChunks(phase int) []chunk {
 	}
 	cs = append(cs, chunk{Cat: "nodep"})
 	cs = append(cs, chunk{Cat: "segkinds"})
+	for lo := 0; lo < len(p.names()); lo += p.famStep {
+		hi := lo + p.famStep
+		if hi > len(p.names()) {
+			hi = len(p.names())
+		}
+		cs = append(cs, chunk{Cat: "names", A: lo, B: hi})
+	}
 	for lo := 0; lo < len(p.deadCode()); lo += p.famStep {
 		hi := lo + p.famStep
 		if hi > len(p.deadCode()) {
@@ -383,6 +402,12 @@ func (p *plan) expand(c chunk, yield func(in input)) {
 	case "segkinds":
 		for _, m := range p.segKinds() {
 			yield(input{B: m.B, Tag: "family:" + m.Name, Valid: m.Valid, Req: m.Req, ExpectF: m.ExpectF, ExpectV: 1, AllFS: true, ExecAllFS: true, ArgSets: 1})
+		}
+	case "names":
+		// Lazy (orders B and C of names.go) follows from the tag prefix "family:names:", so that a replay needs no extra field
+		for k := c.A; k < c.B; k++ {
+			m := p.names()[k]
+			yield(input{B: m.B, Tag: "family:" + m.Name, Valid: m.Valid, Req: m.Req, ExpectF: m.Valid, ExpectV: 1, ArgSets: 1})
 		}
 	case "dropdep":
 		// remove a definition that instructions or other sections depend on, leaving the code section
